@@ -19,6 +19,7 @@ func init() {
 			"(R3) UnregisterPrompter removes the registry entry under the write lock, then BLOCKS until it has taken the prompter out of the holder (waiting for an in-flight invocation), then closes the holder — no non-blocking shortcut; " +
 			"(R4, lockset) the registry map is read under registryLock (read or write) and modified only under the write lock; " +
 			"(R5) determineResponseMode returns Echo only on the true edge of strings.HasSuffix(prompt, s) for s ranging over the suffix table, returns Secret otherwise, and every table entry is a yes/no host-key confirmation (contains \"yes\" and \"no\"). " +
+			"(R6) RegisterPrompterWithIdentifier stores a holder in the registry only where the identifier was looked up and found absent — a refused (colliding) registration leaves the registered prompter's holder in place, so a later unregistration still drains the right one; " +
 			"Not decided: schedules; what the terminal does with the mode.",
 		Assumptions: []string{"channel semantics"},
 		Run:         runC32,
@@ -26,6 +27,7 @@ func init() {
 }
 
 func runC32(c *eng.Ctx) {
+	c32RegisterKeepsHolder(c)
 	// R1.
 	for _, name := range []string{"Message", "Prompt"} {
 		fn := c.MustFunc("R1", promptPkg, name)
